@@ -325,6 +325,9 @@ func rootPath(j *proto.Job) string {
 	if j.AbsRoot {
 		return j.Root
 	}
+	if j.RootSpelling != "" {
+		return projDir + "/" + j.RootSpelling
+	}
 	return filepath.Join(projDir, j.Root)
 }
 
